@@ -121,9 +121,226 @@ def lookup3_constants(repo):
     return mix, fin, basis, inits["aws_hash_string"], inits["aws_hash_ptr"]
 
 
+# ---- the three alignment paths of hashlittle2: block-loop adds and tail switch, as term tables
+def _split_top(expr, sep):
+    out, depth, cur, i = [], 0, "", 0
+    while i < len(expr):
+        ch = expr[i]
+        if ch == "(":
+            depth += 1
+        elif ch == ")":
+            depth -= 1
+        if depth == 0 and expr.startswith(sep, i):
+            out.append(cur); cur = ""; i += len(sep); continue
+        cur += ch; i += 1
+    out.append(cur)
+    return out
+
+
+def _strip_parens(e):
+    while e.startswith("(") and e.endswith(")"):
+        depth = 0
+        for i, ch in enumerate(e):
+            depth += ch == "("
+            depth -= ch == ")"
+            if depth == 0 and i < len(e) - 1:
+                return e
+        e = e[1:-1]
+    return e
+
+
+def _parse_summand(e, kwidth, what):
+    """ATOM | ATOM&MASK | (ATOM)<<N with ATOM = k[i] | k8[i] (casts to uint32_t removed) -> (width, byte offset, mask, shift)"""
+    e = _strip_parens(e.replace("(uint32_t)", ""))
+    shift, mask = 0, 0xFFFFFFFF
+    parts = _split_top(e, "<<")
+    if len(parts) == 2:
+        e, shift = _strip_parens(parts[0]), int(parts[1])
+    elif len(parts) != 1:
+        raise core.GenError(f"lookup3 {what}: unsupported expression {e}")
+    parts = _split_top(e, "&")
+    if len(parts) == 2:
+        e, mask = _strip_parens(parts[0]), int(parts[1], 16)
+    elif len(parts) != 1:
+        raise core.GenError(f"lookup3 {what}: unsupported expression {e}")
+    m = re.fullmatch(r"(k8?)\[(\d+)\]", _strip_parens(e))
+    if not m or not (0 <= shift < 32) or not (0 <= mask <= 0xFFFFFFFF):
+        raise core.GenError(f"lookup3 {what}: unsupported operand {e}")
+    width = 1 if m.group(1) == "k8" else kwidth
+    return (width, int(m.group(2)) * width, mask, shift)
+
+
+def _parse_adds(stmts, kwidth, what):
+    terms = []
+    for st in stmts:
+        m = re.fullmatch(r"([abc])\+=(.+)", st)
+        if not m:
+            raise core.GenError(f"lookup3 {what}: statement `{st}` is not `a|b|c += ...`")
+        for sm in _split_top(m.group(2), "+"):
+            terms.append(("abc".index(m.group(1)),) + _parse_summand(sm, kwidth, what))
+    return terms
+
+
+def lookup3_paths(repo):
+    raw = open(os.path.join(repo, "include", "aws", "common", "private", "lookup3.inl")).read()
+    src = strip_c_comments(raw)
+    m = re.search(r"static\s+void\s+hashlittle2\s*\(.*?\)\s*\{(.*?)\n\}", src, re.S)
+    if not m:
+        raise core.GenError("lookup3: hashlittle2 not found")
+    body = m.group(1)
+    # CBMC-only blocks carry pragmas only; VALGRIND is not defined in any build of this library: take the #ifndef branch
+    for blk in re.findall(r"#ifdef CBMC(.*?)#endif", body, re.S):
+        if any(l.strip() and not l.strip().startswith("#") for l in blk.splitlines()):
+            raise core.GenError("lookup3: an `#ifdef CBMC` block inside hashlittle2 carries code")
+    body = re.sub(r"#ifdef CBMC.*?#endif", "", body, flags=re.S)
+    if len(re.findall(r"#ifndef VALGRIND", body)) != 1:
+        raise core.GenError("lookup3: expected one `#ifndef VALGRIND` in hashlittle2")
+    body = re.sub(r"#ifndef VALGRIND(.*?)#else.*?#endif", lambda mm: mm.group(1), body, flags=re.S)
+    if "#" in body:
+        raise core.GenError("lookup3: unexpected preprocessor directive left in hashlittle2")
+    flat = re.sub(r"\s+", "", body)
+    mm = re.fullmatch(r"uint32_ta,b,c;union\{constvoid\*ptr;size_ti;\}u;a=b=c=0x[0-9a-fA-F]+\+\(\(uint32_t\)length\)\+\*pc;c\+=\*pb;u\.ptr=key;"
+                      r"if\(HASH_LITTLE_ENDIAN&&\(\(u\.i&0x3\)==0\)\)\{(.*)\}elseif\(HASH_LITTLE_ENDIAN&&\(\(u\.i&0x1\)==0\)\)\{(.*)\}"
+                      r"else\{(.*)\}final\(a,b,c\);\*pc=c;\*pb=b;", flat)
+    if not mm:
+        raise core.GenError("lookup3: hashlittle2 is not `init; if (aligned 4) {..} else if (aligned 2) {..} else {..} final; store` as modelled")
+    out = []
+    for idx, (txt, bits) in enumerate(zip(mm.groups(), (32, 16, 8))):
+        what = f"hashlittle2 {bits}-bit path"
+        width = bits // 8
+        pm = re.fullmatch(r"constuint%d_t\*k=\(constuint%d_t\*\)key;while\(length>12\)\{(.*?)mix\(a,b,c\);length-=12;k\+=(\d+);\}"
+                          r"(constuint8_t\*k8=\(constuint8_t\*\)k;)?switch\(length\)\{(.*)\}" % (bits, bits), txt)
+        if not pm or int(pm.group(2)) * width != 12:
+            raise core.GenError(f"lookup3 {what}: not `k = key; while (length > 12) {{adds; mix; length -= 12; k += 12 bytes}} switch(length) {{..}}`")
+        if "k8[" in pm.group(4) and not pm.group(3) and bits != 8:
+            raise core.GenError(f"lookup3 {what}: k8 used without `k8 = (const uint8_t *)k`")
+        block = _parse_adds([x for x in pm.group(1).split(";") if x], width, what)
+        pieces = re.split(r"case(\d+):", pm.group(4))
+        if pieces[0] != "":
+            raise core.GenError(f"lookup3 {what}: code before the first case label")
+        labels = [int(x) for x in pieces[1::2]]
+        if labels != list(range(12, -1, -1)):
+            raise core.GenError(f"lookup3 {what}: case labels are not 12..0 in descending order")
+        cases = {}
+        for lab, code in zip(labels, pieces[2::2]):
+            stmts = [x for x in code.split(";") if x]
+            cases[lab] = stmts
+        if cases[0] != ["*pc=c", "*pb=b", "return"]:
+            raise core.GenError(f"lookup3 {what}: case 0 is not `*pc=c; *pb=b; return;`")
+        tail = [[]]
+        for L in range(1, 13):
+            stmts, lab = [], L
+            while True:
+                cs = cases[lab]
+                if cs and cs[-1] == "break":
+                    stmts += cs[:-1]; break
+                if "break" in cs or "return" in cs or lab == 1:
+                    raise core.GenError(f"lookup3 {what}: unsupported control flow in case {lab}")
+                stmts += cs
+                lab -= 1
+            tail.append(_parse_adds(stmts, width, what + f" case {L}"))
+        out.append((block, tail))
+    return out
+
+
+# ---- quick evaluation of the extracted tables against the byte-wise definition (fails fast, with a witness, before
+# the Lean build is attempted; the Lean side repeats this as Proofs/C02/Lookup3Guard.lean and then proves it in general)
+_M32 = 0xFFFFFFFF
+
+
+def _rot(x, k):
+    return ((x << k) | (x >> (32 - k))) & _M32
+
+
+def _mix(a, b, c, r):
+    a = (a - c) & _M32; a ^= _rot(c, r[0]); c = (c + b) & _M32
+    b = (b - a) & _M32; b ^= _rot(a, r[1]); a = (a + c) & _M32
+    c = (c - b) & _M32; c ^= _rot(b, r[2]); b = (b + a) & _M32
+    a = (a - c) & _M32; a ^= _rot(c, r[3]); c = (c + b) & _M32
+    b = (b - a) & _M32; b ^= _rot(a, r[4]); a = (a + c) & _M32
+    c = (c - b) & _M32; c ^= _rot(b, r[5]); b = (b + a) & _M32
+    return a, b, c
+
+
+def _final(a, b, c, r):
+    c ^= b; c = (c - _rot(b, r[0])) & _M32
+    a ^= c; a = (a - _rot(c, r[1])) & _M32
+    b ^= a; b = (b - _rot(a, r[2])) & _M32
+    c ^= b; c = (c - _rot(b, r[3])) & _M32
+    a ^= c; a = (a - _rot(c, r[4])) & _M32
+    b ^= a; b = (b - _rot(a, r[5])) & _M32
+    c ^= b; c = (c - _rot(b, r[6])) & _M32
+    return a, b, c
+
+
+def _run_path(mem, n, blk, tail, consts, pc=5, pb=9):
+    mixr, finr, basis = consts
+    def add(regs, terms, base):
+        for tgt, width, off, mask, shift in terms:
+            v = sum((mem[base + off + i] if base + off + i < len(mem) else 0) << (8 * i) for i in range(width))
+            regs[tgt] = (regs[tgt] + (((v & mask) << shift) & _M32)) & _M32
+    init = (basis + n + pc) & _M32
+    regs = [init, init, (init + pb) & _M32]
+    base = 0
+    while n > 12:
+        add(regs, blk, base)
+        regs = list(_mix(*regs, mixr))
+        n -= 12; base += 12
+    if n == 0:
+        return regs[2], regs[1]
+    add(regs, tail[n], base)
+    a, b, c = _final(*regs, finr)
+    return c, b
+
+
+_BYTE_TAIL = [[(r, 1, p, _M32, 8 * (p % 4)) for r in range(3) for p in range(4 * r, min(4 * r + 4, L))] for L in range(13)]
+_BYTE_BLOCK = _BYTE_TAIL[12]
+
+
+def check_paths(paths, consts):
+    import random
+    rng = random.Random(20240607)
+    for bits, (blk, tail) in zip((32, 16, 8), paths):
+        for n in list(range(0, 41)) * 3:
+            key = bytes(rng.randrange(256) for _ in range(n))
+            after = bytes(rng.choice([0xFF, 0x0F, 0xF0, 0x01, 0x80, rng.randrange(256)]) for _ in range(4))
+            want = _run_path(key, n, _BYTE_BLOCK, _BYTE_TAIL, consts)
+            got = _run_path(key + after, n, blk, tail, consts)
+            if got != want:
+                raise core.GenError(f"lookup3: the {bits}-bit-load path of hashlittle2 as written no longer computes the byte-wise "
+                                    f"function: key={key.hex() or '-'} (length {n}) followed in memory by {after.hex()}: "
+                                    f"(pc,pb)=({got[0]:08x},{got[1]:08x}) but byte-wise ({want[0]:08x},{want[1]:08x})")
+
+
+def _lean_terms(ts):
+    return "[" + ", ".join("(%d, %d, %d, %d, %d)" % t for t in ts) + "]"
+
+
 def regen(ctx=None):
     repo = cbuild.REPO
     mix, fin, basis, sinit, pinit = lookup3_constants(repo)
+    paths = lookup3_paths(repo)
+    _write_paths(paths)
+    _write_rest(repo, mix, fin, basis, sinit, pinit)
+    # last: every generated file is in place (the model driver can still be built) when this raises
+    check_paths(paths, (mix, fin, basis))
+
+
+def _write_paths(paths):
+    core.write_if_changed(os.path.join(core.LEAN, "AwsVerif", "Gen", "Lookup3Paths.lean"),
+        "/- GENERATED from hashlittle2 in /repo/include/aws/common/private/lookup3.inl by props/c02_gen.py; do not edit.\n"
+        "   A term (target, width, offset, mask, shift) stands for `target += ((load of `width` bytes at byte `offset`, little-endian) & mask) << shift`,\n"
+        "   target 0/1/2 = a/b/c.  l3BlockN: the adds of one `while (length > 12)` iteration of the N-bit-load path;\n"
+        "   l3TailN[len]: the adds executed by `switch(length)` for `length = len` (fall-through flattened). -/\n"
+        "namespace AwsVerif.Gen\n" +
+        "".join(f"def l3Block{bits} : List (Nat × Nat × Nat × Nat × Nat) := {_lean_terms(blk)}\n"
+                f"def l3Tail{bits} : List (List (Nat × Nat × Nat × Nat × Nat)) := [\n  " +
+                ",\n  ".join(_lean_terms(t) for t in tail) + "]\n"
+                for bits, (blk, tail) in zip((32, 16, 8), paths)) +
+        "end AwsVerif.Gen\n")
+
+
+def _write_rest(repo, mix, fin, basis, sinit, pinit):
     core.write_if_changed(os.path.join(core.LEAN, "AwsVerif", "Gen", "Lookup3.lean"),
         "/- GENERATED from /repo/include/aws/common/private/lookup3.inl and source/hash_table.c by props/c02_gen.py; do not edit -/\n"
         "namespace AwsVerif.Gen\n"
